@@ -46,7 +46,7 @@ def run_batched(kind, srcs, batch=150, timeout_ms=20000):
         if kind != "eval":
             c["kind"] = kind
         cases.append(c)
-    res = nv.run_cases(cases, timeout_ms=timeout_ms) if cases else {}
+    res = c15lib.run_cases(cases, timeout_ms=timeout_ms) if cases else {}
     redo = []
     for ci, c in enumerate(cases):
         steps = res[ci]
@@ -66,7 +66,7 @@ def run_batched(kind, srcs, batch=150, timeout_ms=20000):
             if kind != "eval":
                 c["kind"] = kind
             cases2.append(c)
-        res2 = nv.run_cases(cases2, timeout_ms=timeout_ms)
+        res2 = c15lib.run_cases(cases2, timeout_ms=timeout_ms)
         for k, idx in enumerate(redo):
             out[idx] = res2[k][-1] if res2[k] else {"o": "abort"}
     return out
